@@ -1,22 +1,26 @@
-import CoxeterVerif.Lemmas.Inside3D
+import CoxeterVerif.Lemmas.Inside3DCert
+import CoxeterVerif.Lemmas.Inside3DGlue
 /-!
   # C05 — 3-D point containment equals exact membership
 
   Model: `Model/Inside3D.lean` (`Inside3D.CP/Poly/Sphere/Ellipsoid/Sphero.isInside`), specification:
   `Spec/Inside3D.lean` (`MemHull` = explicit convex weights, `inTets` = union of closed tetrahedra,
-  `inBall`, `inEllipsoid`, `MemSphero`).  All statements are over ℝ and for lists of any length
-  (any number of planes, vertices, triangles, tetrahedra, query points).
+  `rayWinding` = signed ray-crossing number, `inBall`, `inEllipsoid`, `MemSphero`).  All statements are
+  over ℝ and for lists of any length (any number of planes, vertices, triangles, tetrahedra, points).
 
-  * convex polyhedron : `cp_inside_of_mem_hull` (hull ⊆ accepted set, from the Qhull contract
-    "every vertex on the inner side of every plane", which the harness checks per run),
-    `cp_outside_of_rejected` (its contrapositive), `cp_mem_hull_of_inside_partial` (converse; the
-    missing hypothesis — facet completeness — is explicit), `tet_mem_hull_of_inTet`;
+  * convex polyhedron : `cp_inside_of_mem_hull`, `cp_planeDist_le_of_mem_hull` (hull ⊆ accepted set, from
+    the Qhull contract, exact or with slack η), `cp_outside_of_rejected(_margin)`;
+    `cp_mem_hull_of_inner_side` (a closed face structure has no missing facet: strictly inside all
+    triangle planes ⇒ explicit convex weights), `cp_mem_hull_of_inside_cert` (accepted with margin ⇒ in
+    the hull, relative to the decidable certificate `facetCert` that the driver evaluates exactly over ℚ
+    on the implementation's own equations, vertices and faces), `cp_mem_hull_of_cover`;
   * sphere / ellipsoid : `sphere_inside_iff`, `ellipsoid_inside_iff`;
   * spheropolyhedron : `sphero_cylinder_sound`, `sphero_cap_sound`, `sphero_prism_sound`,
-    `sphero_inside_sound_partial`, `far_cert_sound`, `plane_cert_sound` (soundness of the oracle's
-    certificates);
+    `sphero_inside_sound_partial`, `far_cert_sound`, `plane_cert_sound`;
   * winding number : `winding_contribution_rot/rev`, `winding_chain_invariant`, `winding_additive`,
-    `poly_inside_iff_partial` (full correctness relative to the single-tetrahedron lemma);
+    `poly_tet_winding` (the single-tetrahedron lemma, ANY coordinates), `poly_winding_eq_signed_count`,
+    `poly_inside_iff` (+ `_checked`), `poly_inside_iff_ray` (+ `_checked`: any closed surface, signed
+    ray-crossing number), `rayWinding_apex_indep`, `poly_inside_iff_winding` (apex-free form);
   * batch = map of single-point results : `cp/poly/sphere/ellipsoid/sphero_batch_eq_map_single`.
 -/
 open Scalar Inside3D Spec.In3D
@@ -80,48 +84,13 @@ example : CP.isInside1 cubeEqs ⟨3/2, 1/4, 1/4⟩ = false := by
 /-- a closed non-degenerate tetrahedron consists of convex combinations of its vertices:
 explicit barycentric weights -/
 theorem tet_mem_hull_of_inTet (T : Tet ℝ) (p : V3 ℝ) (h : inTet T p = true) :
-    MemHull [T.a, T.b, T.c, T.d] p := by
-  obtain ⟨⟨ax, ay, az⟩, ⟨bx, b_y, bz⟩, ⟨cx, cy, cz⟩, ⟨dx, dy, dz⟩⟩ := T
-  obtain ⟨px, py, pz⟩ := p
-  simp only [inTet, bary, List.all_cons, List.all_nil, Bool.and_true, Bool.or_eq_true,
-    Bool.and_eq_true, decide_eq_true_iff, Scalar.lit, Scalar.ofNat_real, Nat.cast_zero] at h
-  set D := orient (⟨ax, ay, az⟩ : V3 ℝ) ⟨bx, b_y, bz⟩ ⟨cx, cy, cz⟩ ⟨dx, dy, dz⟩ with hD
-  set b0 := orient (⟨px, py, pz⟩ : V3 ℝ) ⟨bx, b_y, bz⟩ ⟨cx, cy, cz⟩ ⟨dx, dy, dz⟩ with hb0
-  set b1 := orient (⟨ax, ay, az⟩ : V3 ℝ) ⟨px, py, pz⟩ ⟨cx, cy, cz⟩ ⟨dx, dy, dz⟩ with hb1
-  set b2 := orient (⟨ax, ay, az⟩ : V3 ℝ) ⟨bx, b_y, bz⟩ ⟨px, py, pz⟩ ⟨dx, dy, dz⟩ with hb2
-  set b3 := orient (⟨ax, ay, az⟩ : V3 ℝ) ⟨bx, b_y, bz⟩ ⟨cx, cy, cz⟩ ⟨px, py, pz⟩ with hb3
-  have hsum : b0 + b1 + b2 + b3 = D := by
-    simp only [hb0, hb1, hb2, hb3, hD, orient]; unfold_model; ring
-  have hx : b0 * ax + b1 * bx + b2 * cx + b3 * dx = D * px := by
-    simp only [hb0, hb1, hb2, hb3, hD, orient]; unfold_model; ring
-  have hy : b0 * ay + b1 * b_y + b2 * cy + b3 * dy = D * py := by
-    simp only [hb0, hb1, hb2, hb3, hD, orient]; unfold_model; ring
-  have hz : b0 * az + b1 * bz + b2 * cz + b3 * dz = D * pz := by
-    simp only [hb0, hb1, hb2, hb3, hD, orient]; unfold_model; ring
-  have hD0 : D ≠ 0 := by rcases h with ⟨h, _⟩ | ⟨h, _⟩ <;> [exact h.ne'; exact h.ne]
-  have hw : 0 ≤ b0 / D ∧ 0 ≤ b1 / D ∧ 0 ≤ b2 / D ∧ 0 ≤ b3 / D := by
-    rcases h with ⟨hpos, h0, h1, h2, h3⟩ | ⟨hneg, h0, h1, h2, h3⟩
-    · exact ⟨div_nonneg h0 hpos.le, div_nonneg h1 hpos.le, div_nonneg h2 hpos.le, div_nonneg h3 hpos.le⟩
-    · exact ⟨div_nonneg_of_nonpos h0 hneg.le, div_nonneg_of_nonpos h1 hneg.le,
-        div_nonneg_of_nonpos h2 hneg.le, div_nonneg_of_nonpos h3 hneg.le⟩
-  refine ⟨[b0 / D, b1 / D, b2 / D, b3 / D], rfl, ⟨?_, ?_⟩, ?_⟩
-  · intro w hw'
-    simp only [List.mem_cons, List.not_mem_nil, or_false] at hw'
-    simp only [Scalar.lit, Scalar.ofNat_real, Nat.cast_zero]
-    rcases hw' with rfl | rfl | rfl | rfl
-    exacts [hw.1, hw.2.1, hw.2.2.1, hw.2.2.2]
-  · simp only [Scalar.sum_real, List.sum_cons, List.sum_nil, Scalar.lit, Scalar.ofNat_real, Nat.cast_one]
-    field_simp; linarith
-  · simp only [comb]
-    ext <;> simp only [V3.add_x, V3.add_y, V3.add_z, V3.smul_x, V3.smul_y, V3.smul_z, V3.zero_x, V3.zero_y,
-      V3.zero_z] <;> field_simp <;> linarith
+    MemHull [T.a, T.b, T.c, T.d] p := memHull_tet_of_inTet T p h
 
-/-- **C05 (convex, accepted set ⊆ hull) — partial.**  MISSING: facet completeness of the plane list,
-i.e. that the accepted region `{p | all plane distances ≤ 0}` is covered by tetrahedra spanned by
-vertices (`hcomplete`).  This is a global fact about Qhull's output (no facet is missing) that
-cannot be derived from the finite per-run certificate; it is left to the oracle of the check.
-Given it, every accepted point has explicit convex weights over `V`. -/
-theorem cp_mem_hull_of_inside_partial (eqs : List (Plane ℝ)) (V : List (V3 ℝ)) (Ts : List (Tet ℝ))
+/-- **C05 (convex, accepted set ⊆ hull) from a covering by tetrahedra.**  If the accepted region is
+covered by tetrahedra spanned by vertices, every accepted point has explicit convex weights.  (The
+covering hypothesis is PROVED from the closedness of the face structure in
+`cp_mem_hull_of_inner_side` / `cp_mem_hull_of_inside_cert` below.) -/
+theorem cp_mem_hull_of_cover (eqs : List (Plane ℝ)) (V : List (V3 ℝ)) (Ts : List (Tet ℝ))
     (hV : ∀ T ∈ Ts, T.a ∈ V ∧ T.b ∈ V ∧ T.c ∈ V ∧ T.d ∈ V)
     (hcomplete : ∀ p, CP.isInside1 eqs p = true → inTets Ts p = true)
     (p : V3 ℝ) (hp : CP.isInside1 eqs p = true) : MemHull V p := by
@@ -152,6 +121,100 @@ example : ∀ p, CP.isInside1 tetEqs p = true → inTets [tetT] p = true := by
   unfold_model
   left
   refine ⟨by norm_num, ?_, ?_, ?_, ?_⟩ <;> nlinarith [h.1, h.2.1, h.2.2.1, h.2.2.2]
+
+/-- **C05 (convex, hull ⊆ accepted set, with slack).**  If every vertex satisfies every plane
+inequality up to `η` (what floating-point Qhull output guarantees; the driver computes the exact `η`),
+every convex combination of the vertices satisfies every plane inequality up to `η`. -/
+theorem cp_planeDist_le_of_mem_hull (eqs : List (Plane ℝ)) (V : List (V3 ℝ)) (η : ℝ) (p : V3 ℝ)
+    (hq : ∀ e ∈ eqs, ∀ v ∈ V, CP.planeDist e v ≤ η) (hp : MemHull V p) :
+    ∀ d ∈ CP.planeDists eqs p, d ≤ η := by
+  obtain ⟨ws, hlen, ⟨hw, hs⟩, rfl⟩ := hp
+  simp only [Scalar.lit, Scalar.ofNat_real, Scalar.sum_real, Nat.cast_zero, Nat.cast_one] at hw hs
+  intro d hd
+  obtain ⟨e, he, rfl⟩ := List.mem_map.mp hd
+  rw [planeDist_comb e ws V hlen, hs]
+  have := sum_zipWith_le (CP.planeDist e) η ws V hlen hw (hq e he)
+  rw [hs] at this
+  linarith
+
+/-- contrapositive: a point violating one plane inequality by more than `η` is outside the hull -/
+theorem cp_outside_of_rejected_margin (eqs : List (Plane ℝ)) (V : List (V3 ℝ)) (η : ℝ) (p : V3 ℝ)
+    (hq : ∀ e ∈ eqs, ∀ v ∈ V, CP.planeDist e v ≤ η) (hrej : ∃ d ∈ CP.planeDists eqs p, η < d) :
+    ¬ MemHull V p := by
+  intro h
+  obtain ⟨d, hd, hlt⟩ := hrej
+  have := cp_planeDist_le_of_mem_hull eqs V η p hq h d hd
+  linarith
+
+/-- **C05 (convex, no facet is missing).**  `S` = the faces of the polyhedron cut into triangles:
+a closed oriented surface (`ClosedSurface`, decided by `closedCheck`) with vertices in `V`; `o` any
+point of the hull off the plane of one triangle.  Every point lying strictly on the inner side of the
+plane of every triangle of `S` has explicit convex weights over `V`.
+(Proof: the single-tetrahedron winding lemma + independence of the winding sum from the cone apex.) -/
+theorem cp_mem_hull_of_inner_side (V : List (V3 ℝ)) {S : List (Tri ℝ)} (hcl : CCk.ClosedSurface S)
+    (hV : ∀ t ∈ S, t.a ∈ V ∧ t.b ∈ V ∧ t.c ∈ V)
+    (o : V3 ℝ) (ho : MemHull V o) {t1 : Tri ℝ} (ht1 : t1 ∈ S) (h1 : orient o t1.a t1.b t1.c ≠ 0)
+    (p : V3 ℝ) (hp : ∀ t ∈ S, 0 < orient p t.a t.b t.c) : MemHull V p :=
+  memHull_of_inner_side V hcl hV o ho ht1 h1 p hp
+
+/-- the model's plane list built from the rational equations the driver read -/
+def planesOfRat (eqs : List (V3 ℚ × ℚ)) : List (Plane ℝ) :=
+  eqs.map fun e => ⟨CCk.v3OfRat e.1, (e.2 : ℝ)⟩
+
+/-- **C05 (convex, accepted with margin ⇒ in the hull) — certificate form.**  `facetCert` is the
+decidable certificate of `Spec/Inside3D.lean`, evaluated by the driver exactly over ℚ on the
+implementation's own `_equations`, `vertices` and `faces` (fan-triangulated), with the harness's
+margin `m` and box radius `R`.  If it holds, EVERY real point of the box `|p − o|∞ ≤ R` all of whose
+plane distances (as the model computes them) are `< −m` is a convex combination of the vertices.
+This replaces the facet-completeness hypothesis of `cp_mem_hull_of_cover`. -/
+theorem cp_mem_hull_of_inside_cert (V : List (V3 ℚ)) (eqs : List (V3 ℚ × ℚ)) (ws : List ℚ)
+    (F : List (Tri ℚ × V3 ℚ × ℚ)) (m R : ℚ) (hcert : facetCert V eqs ws F m R = true)
+    (p : V3 ℝ) (hx : |p.x - ((comb ws V).x : ℝ)| ≤ R) (hy : |p.y - ((comb ws V).y : ℝ)| ≤ R)
+    (hz : |p.z - ((comb ws V).z : ℝ)| ≤ R)
+    (hp : ∀ d ∈ CP.planeDists (planesOfRat eqs) p, d < -(m : ℝ)) :
+    MemHull (V.map CCk.v3OfRat) p := by
+  refine facetCert_rat_sound V eqs ws F m R hcert p hx hy hz ?_
+  intro e he
+  apply hp
+  unfold CP.planeDists planesOfRat
+  rw [List.map_map]
+  exact List.mem_map.mpr ⟨e, he, rfl⟩
+
+/-- the certificate on the unit cube (exact data: margin 0), evaluated in ℚ by the kernel -/
+def cubeVq : List (V3 ℚ) :=
+  [⟨0,0,0⟩, ⟨1,0,0⟩, ⟨0,1,0⟩, ⟨1,1,0⟩, ⟨0,0,1⟩, ⟨1,0,1⟩, ⟨0,1,1⟩, ⟨1,1,1⟩]
+def cubeEqsq : List (V3 ℚ × ℚ) :=
+  [(⟨-1, 0, 0⟩, 0), (⟨1, 0, 0⟩, -1), (⟨0, -1, 0⟩, 0), (⟨0, 1, 0⟩, -1), (⟨0, 0, -1⟩, 0), (⟨0, 0, 1⟩, -1)]
+def cubeWq : List ℚ := [1/8, 1/8, 1/8, 1/8, 1/8, 1/8, 1/8, 1/8]
+def cubeFq : List (Tri ℚ × V3 ℚ × ℚ) :=
+  [ (⟨⟨0,0,0⟩, ⟨0,0,1⟩, ⟨0,1,1⟩⟩, ⟨-1,0,0⟩, 0), (⟨⟨0,0,0⟩, ⟨0,1,1⟩, ⟨0,1,0⟩⟩, ⟨-1,0,0⟩, 0),
+    (⟨⟨1,0,0⟩, ⟨1,1,0⟩, ⟨1,1,1⟩⟩, ⟨1,0,0⟩, -1), (⟨⟨1,0,0⟩, ⟨1,1,1⟩, ⟨1,0,1⟩⟩, ⟨1,0,0⟩, -1),
+    (⟨⟨0,0,0⟩, ⟨1,0,0⟩, ⟨1,0,1⟩⟩, ⟨0,-1,0⟩, 0), (⟨⟨0,0,0⟩, ⟨1,0,1⟩, ⟨0,0,1⟩⟩, ⟨0,-1,0⟩, 0),
+    (⟨⟨0,1,0⟩, ⟨0,1,1⟩, ⟨1,1,1⟩⟩, ⟨0,1,0⟩, -1), (⟨⟨0,1,0⟩, ⟨1,1,1⟩, ⟨1,1,0⟩⟩, ⟨0,1,0⟩, -1),
+    (⟨⟨0,0,0⟩, ⟨0,1,0⟩, ⟨1,1,0⟩⟩, ⟨0,0,-1⟩, 0), (⟨⟨0,0,0⟩, ⟨1,1,0⟩, ⟨1,0,0⟩⟩, ⟨0,0,-1⟩, 0),
+    (⟨⟨0,0,1⟩, ⟨1,0,1⟩, ⟨1,1,1⟩⟩, ⟨0,0,1⟩, -1), (⟨⟨0,0,1⟩, ⟨1,1,1⟩, ⟨0,1,1⟩⟩, ⟨0,0,1⟩, -1) ]
+
+example : facetCert cubeVq cubeEqsq cubeWq cubeFq 0 2 = true := by decide +kernel
+
+/-- … hence every point strictly accepted by the cube's six planes has explicit convex weights -/
+example : MemHull (cubeVq.map CCk.v3OfRat) ⟨1/3, 1/5, 6/7⟩ := by
+  apply cp_mem_hull_of_inside_cert cubeVq cubeEqsq cubeWq cubeFq 0 2 (by decide +kernel)
+  · have : ((comb cubeWq cubeVq).x : ℝ) = 1/2 := by
+      have h : (comb cubeWq cubeVq).x = 1/2 := by decide +kernel
+      rw [h]; norm_num
+    rw [this]; norm_num [abs_le]
+  · have : ((comb cubeWq cubeVq).y : ℝ) = 1/2 := by
+      have h : (comb cubeWq cubeVq).y = 1/2 := by decide +kernel
+      rw [h]; norm_num
+    rw [this]; norm_num [abs_le]
+  · have : ((comb cubeWq cubeVq).z : ℝ) = 1/2 := by
+      have h : (comb cubeWq cubeVq).z = 1/2 := by decide +kernel
+      rw [h]; norm_num
+    rw [this]; norm_num [abs_le]
+  · intro d hd
+    simp only [CP.planeDists, planesOfRat, cubeEqsq, List.map_cons, List.map_nil, List.mem_cons,
+      List.not_mem_nil, or_false, CP.planeDist, V3.dot, CCk.v3OfRat] at hd
+    rcases hd with rfl | rfl | rfl | rfl | rfl | rfl <;> norm_num
 
 /-! ### sphere, ellipsoid -/
 
@@ -359,6 +422,55 @@ theorem sphero_inside_sound_partial (V : List (V3 ℝ)) (r : ℝ) (eqs : List (P
         obtain ⟨s, hs, hcap⟩ := hchk
         exact sphero_cap_sound V r p s (hfaces fp hfp s hs) hcap
 
+/-! spheropolyhedron, completeness of the individual branches (the geometric statement "every point
+within `r` of the core falls into one of them" is NOT proved; it is the oracle's job) -/
+
+/-- a point of the core (explicit convex weights, Qhull contract) is accepted, whatever `r` -/
+theorem sphero_accepts_core (V : List (V3 ℝ)) (r : ℝ) (eqs : List (Plane ℝ)) (faces : List (List (V3 ℝ)))
+    (extruded : List (List (Plane ℝ))) (p : V3 ℝ)
+    (hq : ∀ e ∈ eqs, ∀ v ∈ V, CP.planeDist e v ≤ 0) (hp : MemHull V p) :
+    Sphero.isInside1 r eqs faces extruded p = true := by
+  unfold Sphero.isInside1
+  rw [cp_inside_of_mem_hull eqs V p hq hp, Bool.true_or]
+
+/-- the three branches of `check_face` -/
+theorem sphero_checkFace_of_prism (r : ℝ) (prism : List (Plane ℝ)) (fp : List (V3 ℝ)) (p : V3 ℝ)
+    (h : CP.isInside1 prism p = true) : Sphero.checkFace r prism fp p = true := by
+  unfold Sphero.checkFace; rw [if_pos h]
+
+theorem sphero_checkFace_of_cylinder (r : ℝ) (prism : List (Plane ℝ)) (fp : List (V3 ℝ)) (p s e : V3 ℝ)
+    (hse : (s, e) ∈ fp.zip (roll fp)) (h : Sphero.inCylinder r p s e = true) :
+    Sphero.checkFace r prism fp p = true := by
+  have hany : ((fp.zip (roll fp)).any fun se => Sphero.inCylinder r p se.1 se.2) = true := by
+    rw [List.any_eq_true]; exact ⟨(s, e), hse, h⟩
+  unfold Sphero.checkFace
+  by_cases h1 : CP.isInside1 prism p = true
+  · rw [if_pos h1]
+  · rw [if_neg h1]; simp only [hany, if_true]
+
+theorem sphero_checkFace_of_cap (r : ℝ) (prism : List (Plane ℝ)) (fp : List (V3 ℝ)) (p s : V3 ℝ)
+    (hs : s ∈ fp) (h : Sphero.inCap r p s = true) : Sphero.checkFace r prism fp p = true := by
+  have hany : (fp.any fun s => Sphero.inCap r p s) = true := by
+    rw [List.any_eq_true]; exact ⟨s, hs, h⟩
+  unfold Sphero.checkFace
+  by_cases h1 : CP.isInside1 prism p = true
+  · rw [if_pos h1]
+  · rw [if_neg h1]
+    by_cases h2 : ((fp.zip (roll fp)).any fun se => Sphero.inCylinder r p se.1 se.2) = true
+    · simp only [h2, if_true]
+    · simp only [h2, hany]; rfl
+
+/-- a candidate face (`0 < dist ≤ r`) whose `check_face` succeeds makes the point accepted -/
+theorem sphero_accepts_of_candidate (r : ℝ) (eqs : List (Plane ℝ)) (faces : List (List (V3 ℝ)))
+    (extruded : List (List (Plane ℝ))) (p : V3 ℝ) (c : Bool × List (Plane ℝ) × List (V3 ℝ))
+    (hc : c ∈ ((CP.planeDists eqs p).map (Sphero.toCheck r)).zip (extruded.zip faces))
+    (h1 : c.1 = true) (h2 : Sphero.checkFace r c.2.1 c.2.2 p = true) :
+    Sphero.isInside1 r eqs faces extruded p = true := by
+  unfold Sphero.isInside1
+  rw [Bool.or_eq_true]; right
+  rw [List.any_eq_true]
+  exact ⟨c, hc, by rw [h1, h2]; rfl⟩
+
 /-! ### soundness of the oracle's certificates -/
 
 /-- **separating plane certificate.** If the driver's exact values satisfy `max_v (n·v+d) ≤ 0 < n·p+d`
@@ -446,26 +558,125 @@ example (t : Tri ℝ) (S : List (Tri ℝ)) (p : V3 ℝ) :
 tetrahedra `Ts`, the winding sum is the sum of the winding sums of the single tetrahedra -/
 theorem winding_additive {S : List (Tri ℝ)} {Ts : List (Tet ℝ)}
     (h : ChainEq S (Ts.flatMap Tet.bdry)) (p : V3 ℝ) :
-    Poly.windingSum S p = (Ts.map fun T => Poly.windingSum T.bdry p).sum := by
-  have h1 := sumOver_bdry (windPhi_oddCyclic p) (Φ := fun T => sumOver (windPhi p) T.bdry)
-    (fun _ => rfl) h
-  rw [← windingSum_eq_sumOver] at h1
-  have h2 : ∀ Ts : List (Tet ℝ), ((Ts.map fun T => sumOver (windPhi p) T.bdry).sum : ℝ) =
-      (((Ts.map fun T => Poly.windingSum T.bdry p).sum : Int) : ℝ) := by
-    intro Ts
-    induction Ts with
-    | nil => simp
-    | cons T Ts ih => simp only [List.map_cons, List.sum_cons, Int.cast_add, windingSum_eq_sumOver, ih]
-  rw [h2 Ts] at h1
-  exact_mod_cast h1
+    Poly.windingSum S p = (Ts.map fun T => Poly.windingSum T.bdry p).sum :=
+  windingSum_additive h p
 
-/-- **C05 (generic polyhedron) — partial.**  MISSING: the single-tetrahedron lemma `hT`
-(`Σ over ∂T = 2·[p ∈ T]` for a positively oriented tetrahedron and a point off its boundary), a
-finite but large sign case analysis on 12 real coordinates that we have not formalised (it is
-verified by evaluation on concrete tetrahedra below and by the check's oracle).  Given it, for
-EVERY closed surface that bounds a tetrahedralised solid — convex or not, any genus — the winding
-test accepts exactly the points of the solid. -/
-theorem poly_inside_iff_partial {S : List (Tri ℝ)} {Ts : List (Tet ℝ)}
+/-- **C05 (generic polyhedron): the single-tetrahedron winding lemma.**  For ANY tetrahedron `T`
+(either orientation, degenerate or not) and ANY point `p` on none of its four face planes — `p` may
+share `x`, `y` or `z` coordinates with vertices, lie on the vertical line of a vertex or an edge, … —
+the model's winding sum over the four faces is `2·sgn(orient T)` if `p ∈ T` and `0` otherwise.
+Proof: the lexicographic tie-breaking of the code is the shear `(x + εy + ε²z/2, y + εz, z)` for all
+small `ε > 0` (`Lemmas/Inside3DShear.lean`); in generic position the four barycentric identities
+exclude all sign patterns on which the count is wrong (`Lemmas/Inside3DTet.lean`, 1024 patterns
+evaluated by the kernel). -/
+theorem poly_tet_winding (T : Tet ℝ) (p : V3 ℝ) (hoff : ∀ x ∈ bary T p, x ≠ 0) :
+    Poly.windingSum T.bdry p =
+      2 * (if inTet T p = true then sgn (orient T.a T.b T.c T.d) else 0) :=
+  tet_winding T p hoff
+
+/-- the lemma extended to a point IN THE PLANE of the face opposite to `T.a` (but not on that closed
+triangle): the situation of a cone tetrahedron over a surface triangle and a query point coplanar
+with it, e.g. a lattice point of a voxel solid -/
+theorem poly_tet_winding_coplanar (T : Tet ℝ) (p : V3 ℝ)
+    (h1 : orient T.a p T.c T.d ≠ 0) (h2 : orient T.a T.b p T.d ≠ 0) (h3 : orient T.a T.b T.c p ≠ 0)
+    (h0 : orient p T.b T.c T.d ≠ 0 ∨ inTet T p = false) :
+    Poly.windingSum T.bdry p =
+      2 * (if inTet T p = true then sgn (orient T.a T.b T.c T.d) else 0) :=
+  tet_winding' T p h1 h2 h3 h0
+
+/-- **the winding sum is twice the signed number of tetrahedra containing the point**, for every
+surface that is the boundary chain of the tetrahedra `Ts` (any orientations) and every point that,
+for each `T ∈ Ts`, is off the three face planes through `T.a` and not on the closed face opposite to
+`T.a` (`offCone`, an exact test; implied by `offPlanes` = off all four face planes) -/
+theorem poly_winding_eq_signed_count {S : List (Tri ℝ)} {Ts : List (Tet ℝ)}
+    (h : ChainEq S (Ts.flatMap Tet.bdry)) (p : V3 ℝ) (hoff : offCone Ts p = true) :
+    Poly.windingSum S p = 2 * signedCount Ts p :=
+  windingSum_eq_signedCount' h p hoff
+
+/-- **C05 (generic polyhedron).**  For EVERY closed surface that bounds a tetrahedralised solid —
+convex or not, any genus, any number of components — and every point off the face planes of the
+tetrahedra, the winding test accepts exactly the points of the solid. -/
+theorem poly_inside_iff {S : List (Tri ℝ)} {Ts : List (Tet ℝ)}
+    (h : ChainEq S (Ts.flatMap Tet.bdry)) (hor : ∀ T ∈ Ts, 0 ≤ orient T.a T.b T.c T.d)
+    (p : V3 ℝ) (hoff : offCone Ts p = true) :
+    Poly.isInside1 S p = true ↔ inTets Ts p = true := by
+  rw [isInside1_iff_signedCount' h p hoff, signedCount_eq_count Ts p hor, countTets_ne_zero_iff]
+
+/-- per-run form: `chainCheck`, the orientation test and `offCone` are what the driver op
+`spec.in3.tetcount` evaluates exactly over ℚ on the run's surface triangles (the implementation's own
+polytri output), tetrahedra and query points -/
+theorem poly_inside_iff_checked {S : List (Tri ℚ)} {Ts : List (Tet ℚ)}
+    (h : ChainCheck.chainCheck S (Ts.flatMap Tet.bdry) = true)
+    (hor : (Ts.all fun T => decide (lit 0 ≤ orient T.a T.b T.c T.d)) = true)
+    (p : V3 ℚ) (hoff : offCone Ts p = true) :
+    Poly.isInside1 (S.map CCk.triOfRat) (CCk.v3OfRat p) = true ↔ inTets Ts p = true := by
+  rw [← inTets_ofRat]
+  apply poly_inside_iff (chainCheck_tets_rat_sound' h)
+  · intro T' hT'
+    obtain ⟨T, hT, rfl⟩ := List.mem_map.mp hT'
+    have := List.all_eq_true.mp hor T hT
+    rw [decide_eq_true_iff, lit0_rat] at this
+    have e : orient (CCk.tetOfRat T).a (CCk.tetOfRat T).b (CCk.tetOfRat T).c (CCk.tetOfRat T).d =
+        ((orient T.a T.b T.c T.d : ℚ) : ℝ) := orient_ofRat _ _ _ _
+    rw [e]; exact_mod_cast this
+  · rw [offCone_ofRat]; exact hoff
+
+/-- **C05 (generic polyhedron, any closed surface): the code computes the signed ray-crossing
+number.**  `S` any closed oriented triangulated surface (`ClosedSurface`: directed edges cancel in
+pairs — no tetrahedralisation needed), `o` any apex, `p` not on a triangle of `S` and off the side
+planes of the cone from `o` (`offCone`; `p` may be coplanar with triangles of `S` and share any
+coordinates with vertices): the winding test accepts `p` iff the signed number of triangles crossed
+by the ray from `p` pointing away from `o` is non-zero. -/
+theorem poly_inside_iff_ray {S : List (Tri ℝ)} (hcl : CCk.ClosedSurface S) (o p : V3 ℝ)
+    (hoff : offCone (coneTets o S) p = true) :
+    Poly.isInside1 S p = true ↔ rayWinding o S p ≠ 0 :=
+  isInside1_iff_signedCount' (cone_closed' hcl o) p hoff
+
+theorem poly_winding_eq_ray {S : List (Tri ℝ)} (hcl : CCk.ClosedSurface S) (o p : V3 ℝ)
+    (hoff : offCone (coneTets o S) p = true) :
+    Poly.windingSum S p = 2 * rayWinding o S p :=
+  windingSum_eq_signedCount' (cone_closed' hcl o) p hoff
+
+/-- **the signed ray-crossing number of a closed surface is well defined**: it does not depend on
+the apex (i.e. on the ray), as long as apex and point are in general position -/
+theorem rayWinding_apex_indep {S : List (Tri ℝ)} (hcl : CCk.ClosedSurface S) (o o' p : V3 ℝ)
+    (hoff : offCone (coneTets o S) p = true) (hoff' : offCone (coneTets o' S) p = true) :
+    rayWinding o S p = rayWinding o' S p := by
+  have h1 := poly_winding_eq_ray hcl o p hoff
+  have h2 := poly_winding_eq_ray hcl o' p hoff'
+  omega
+
+/-- **apex-free form.**  For every closed surface and every point on none of its triangle planes a
+generic apex EXISTS, all generic apexes give the same signed crossing number `w` (the winding number
+of `S` about `p`), and the code accepts `p` iff `w ≠ 0`. -/
+theorem poly_inside_iff_winding {S : List (Tri ℝ)} (hcl : CCk.ClosedSurface S) (p : V3 ℝ)
+    (hp : ∀ t ∈ S, orient p t.a t.b t.c ≠ 0) :
+    ∃ w : Int, (∃ o, offCone (coneTets o S) p = true) ∧
+      (∀ o, offCone (coneTets o S) p = true → rayWinding o S p = w) ∧
+      (Poly.isInside1 S p = true ↔ w ≠ 0) := by
+  obtain ⟨ε0, h0, hk⟩ := generic_apex S p hp ⟨1, 0, 0⟩ ⟨0, 1, 0⟩ ⟨0, 0, 1⟩ ⟨0, 0, 0⟩
+    (Or.inl (by unfold V3.det3 V3.dot V3.cross; norm_num))
+  have hoff0 := offCone_of_offPlanes (hk ε0 h0 le_rfl)
+  set o0 := p - curve ⟨1, 0, 0⟩ ⟨0, 1, 0⟩ ⟨0, 0, 1⟩ ⟨0, 0, 0⟩ ε0
+  refine ⟨rayWinding o0 S p, ⟨o0, hoff0⟩, ?_, poly_inside_iff_ray hcl o0 p hoff0⟩
+  intro o ho
+  exact rayWinding_apex_indep hcl o o0 p ho hoff0
+
+/-- per-run form: `closedCheck`, `offCone` and `rayWinding` are what the driver op `spec.in3.ray`
+evaluates exactly over ℚ on the implementation's own polytri triangles -/
+theorem poly_inside_iff_ray_checked {S : List (Tri ℚ)} (hcl : ChainCheck.closedCheck S = true)
+    (o p : V3 ℚ) (hoff : offCone (coneTets o S) p = true) :
+    Poly.isInside1 (S.map CCk.triOfRat) (CCk.v3OfRat p) = true ↔ rayWinding o S p ≠ 0 := by
+  have h := poly_inside_iff_ray (closedCheck_rat_sound' hcl) (CCk.v3OfRat o) (CCk.v3OfRat p)
+    (by rw [coneTets_ofRat, offCone_ofRat]; exact hoff)
+  rw [h]
+  unfold rayWinding
+  rw [coneTets_ofRat, signedCount_ofRat]
+
+/-- correctness relative to the single-tetrahedron lemma given as a hypothesis (superseded by
+`poly_inside_iff`; kept because it does not need the points to be off the face planes when `hT` is
+known otherwise) -/
+theorem poly_inside_iff_of_tet_lemma {S : List (Tri ℝ)} {Ts : List (Tet ℝ)}
     (h : ChainEq S (Ts.flatMap Tet.bdry)) (p : V3 ℝ)
     (hT : ∀ T ∈ Ts, Poly.windingSum T.bdry p = 2 * (if inTet T p = true then 1 else 0)) :
     Poly.isInside1 S p = true ↔ inTets Ts p = true := by
@@ -474,16 +685,9 @@ theorem poly_inside_iff_partial {S : List (Tri ℝ)} {Ts : List (Tet ℝ)}
     congr 1
     exact List.map_congr_left hT
   unfold Poly.isInside1 Poly.windingNumber
-  rw [hsum]
-  have hdiv : Int.fdiv (2 * (countTets Ts p : Int)) 2 = (countTets Ts p : Int) := by
-    rw [Int.fdiv_eq_ediv_of_nonneg _ (by norm_num)]; omega
-  rw [hdiv]
-  simp only [bne_iff_ne, ne_eq, Int.natCast_eq_zero, inTets, countTets]
-  rw [List.any_eq_true, List.length_eq_zero_iff, List.filter_eq_nil_iff]
-  push Not
-  constructor
-  · rintro ⟨T, hT1, hT2⟩; exact ⟨T, hT1, hT2⟩
-  · rintro ⟨T, hT1, hT2⟩; exact ⟨T, hT1, hT2⟩
+  rw [hsum, fdiv_two_mul]
+  simp only [bne_iff_ne]
+  exact countTets_ne_zero_iff Ts p
 
 /-- **geometric meaning of the per-triangle term (generic position).**  If no vertex of the
 triangle shares its `x` coordinate with `p` and the projection of no edge passes through `p`,
@@ -524,19 +728,40 @@ example : Poly.windingSum tetU.bdry ⟨1, 1, 3⟩ = 0 := by eval_winding        
 example : Poly.windingSum tetU.bdry ⟨1, 3, 1⟩ = 0 := by eval_winding
 example : Poly.windingSum tetU.bdry ⟨1, 1, -1⟩ = 0 := by eval_winding         -- below, on the apex's vertical line
 
-/-- the hypotheses of `poly_inside_iff_partial` are satisfiable: the unit tetrahedron and an interior point -/
-example : Poly.isInside1 tetT.bdry ⟨1/4, 1/4, 1/4⟩ = true ↔ inTets [tetT] ⟨1/4, 1/4, 1/4⟩ = true := by
-  apply poly_inside_iff_partial (Ts := [tetT]) (by simpa using ChainEq.refl _)
-  intro T hT
-  simp only [List.mem_singleton] at hT
-  subst hT
-  have h1 : Poly.windingSum tetT.bdry ⟨1/4, 1/4, 1/4⟩ = 2 := by eval_winding
-  have h2 : inTet tetT ⟨1/4, 1/4, 1/4⟩ = true := by
-    simp only [inTet, bary, tetT, orient, List.all_cons, List.all_nil, Bool.and_true, Bool.or_eq_true,
-      Bool.and_eq_true, decide_eq_true_iff]
-    unfold_model
-    left; norm_num
-  rw [h1, h2]; rfl
+/-- the hypotheses of `poly_tet_winding` / `poly_inside_iff` are satisfiable on a point in
+NON-generic position: `(1, 1, 1/2)` shares `x` with two vertices of `tetU` and `x`, `y` with its apex -/
+example : Poly.isInside1 tetU.bdry ⟨1, 1, 1/2⟩ = true ↔ inTets [tetU] ⟨1, 1, 1/2⟩ = true := by
+  apply poly_inside_iff (Ts := [tetU]) (by simpa using ChainEq.refl _)
+  · intro T hT
+    simp only [List.mem_singleton] at hT
+    subst hT
+    simp only [tetU, orient]; unfold_model; norm_num
+  · apply offCone_of_offPlanes
+    rw [offPlanes_iff]
+    intro T hT x hx
+    simp only [List.mem_singleton] at hT
+    subst hT
+    simp only [bary, tetU, orient, List.mem_cons, List.not_mem_nil, or_false] at hx
+    rcases hx with rfl | rfl | rfl | rfl <;> unfold_model <;> norm_num
+
+/-- the per-run forms on exact data: the surface of the unit tetrahedron, apex and query point with
+rational coordinates; every hypothesis is evaluated by the kernel -/
+def tetSq : List (Tri ℚ) := (⟨⟨0,0,0⟩, ⟨1,0,0⟩, ⟨0,1,0⟩, ⟨0,0,1⟩⟩ : Tet ℚ).bdry
+
+example : Poly.isInside1 (tetSq.map CCk.triOfRat) (CCk.v3OfRat ⟨1/4, 1/5, 1/3⟩) = true :=
+  (poly_inside_iff_ray_checked (S := tetSq) (by decide +kernel) ⟨1/7, 1/3, 1/5⟩ ⟨1/4, 1/5, 1/3⟩
+    (by decide +kernel)).mpr (by decide +kernel)
+
+example : Poly.isInside1 (tetSq.map CCk.triOfRat) (CCk.v3OfRat ⟨1, 1, 1⟩) = false := by
+  rw [Bool.eq_false_iff]
+  exact fun h => (poly_inside_iff_ray_checked (S := tetSq) (by decide +kernel) ⟨1/7, 1/3, 1/5⟩ ⟨1, 1, 1⟩
+    (by decide +kernel)).mp h (by decide +kernel)
+
+/-- a query point COPLANAR with a face (`z = 0`) and sharing `x`, `y` with vertices: outside -/
+example : Poly.isInside1 (tetSq.map CCk.triOfRat) (CCk.v3OfRat ⟨1, 1, 0⟩) = false := by
+  rw [Bool.eq_false_iff]
+  exact fun h => (poly_inside_iff_ray_checked (S := tetSq) (by decide +kernel) ⟨1/7, 1/3, 1/5⟩ ⟨1, 1, 0⟩
+    (by decide +kernel)).mp h (by decide +kernel)
 
 /-! ### batch calls = map of single-point calls (on the models of the vectorised code) -/
 
@@ -615,5 +840,54 @@ theorem sphero_batch_eq_map_single (r : ℝ) (eqs : List (Plane ℝ)) (faces : L
     apply List.map_congr_left
     intro p _
     rw [hloop p]; rfl
+
+/-! ### argument conversion (`np.atleast_2d`) and the vertex-index round trip of `Polyhedron.is_inside` -/
+
+/-- a `(3,)` argument gives a one-element result holding the single-point verdict; an `(N, 3)`
+argument gives the verdicts in input order -/
+theorem cp_arg_eq (eqs : List (Plane ℝ)) (pts : Points ℝ) :
+    CP.isInsideArg eqs pts = (atleast2d pts).map (CP.isInside1 eqs) :=
+  cp_batch_eq_map_single eqs _
+
+theorem sphere_arg_eq (r : ℝ) (c : V3 ℝ) (pts : Points ℝ) :
+    Sphere.isInsideArg r c pts = (atleast2d pts).map (Sphere.isInside1 r c) := rfl
+
+theorem ellipsoid_arg_eq (a b c : ℝ) (cen : V3 ℝ) (pts : Points ℝ) :
+    Ellipsoid.isInsideArg a b c cen pts = (atleast2d pts).map (Ellipsoid.isInside1 a b c cen) := rfl
+
+theorem sphero_arg_eq (r : ℝ) (eqs : List (Plane ℝ)) (faces : List (List (V3 ℝ)))
+    (extruded : List (List (Plane ℝ))) (pts : Points ℝ) :
+    Sphero.isInsideArg r eqs faces (.ok extruded) pts =
+      .ok ((atleast2d pts).map (Sphero.isInside1 r eqs faces extruded)) :=
+  sphero_batch_eq_map_single r eqs faces extruded _
+
+example (eqs : List (Plane ℝ)) (p : V3 ℝ) : CP.isInsideArg eqs (.row p) = [CP.isInside1 eqs p] :=
+  cp_arg_eq eqs (.row p)
+
+/-- **C05 (Polyhedron glue).**  Mapping the polytri triangles to vertex indices and back to rows of
+`self.vertices` changes nothing when every triangle vertex is one of the vertices (duplicate rows
+included: the last index wins and holds the same coordinates); the full call is the map of the
+single-point verdict over `np.atleast_2d(points)`. -/
+theorem poly_arg_eq (V : List (V3 ℝ)) (S : List (Tri ℝ)) (pts : Points ℝ)
+    (hmem : ∀ t ∈ S, t.a ∈ V ∧ t.b ∈ V ∧ t.c ∈ V) :
+    Poly.isInsideArg V S pts = .ok ((atleast2d pts).map (Poly.isInside1 S)) := by
+  unfold Poly.isInsideArg
+  rw [gather_eq V S hmem, ← poly_batch_eq_map_single]
+  rfl
+
+/-- a triangle vertex that is not a row of `vertices` raises `KeyError` (first triangle, first vertex) -/
+theorem poly_arg_keyerror (V : List (V3 ℝ)) (t : Tri ℝ) (S : List (Tri ℝ)) (pts : Points ℝ)
+    (h : t.a ∉ V) : Poly.isInsideArg V (t :: S) pts = .error "KeyError" := by
+  unfold Poly.isInsideArg Poly.gather
+  rw [List.mapM_cons, gatherVertex_error h]
+  rfl
+
+example : Poly.isInsideArg [⟨0,0,0⟩, ⟨1,0,0⟩, ⟨0,1,0⟩, ⟨0,0,1⟩, ⟨0,0,1⟩] tetT.bdry (.row (⟨1/4, 1/4, 1/4⟩ : V3 ℝ))
+    = .ok [Poly.isInside1 tetT.bdry ⟨1/4, 1/4, 1/4⟩] := by
+  apply poly_arg_eq
+  intro t ht
+  simp only [tetT, Tet.bdry, List.mem_cons, List.not_mem_nil, or_false] at ht
+  rcases ht with rfl | rfl | rfl | rfl <;> simp
+
 
 end
